@@ -274,6 +274,33 @@ func movedFuncs(cur map[string]string) map[string]string {
 			taken[cands[0]] = true
 		}
 	}
+	// same name in the same package, receiver dropped or added (a method whose receiver was unused becomes a plain
+	// function, or the reverse): the body may have changed with it, so only the name decides, and only when unique
+	nameOf := func(k string) (string, string) {
+		i := strings.IndexByte(k, ':')
+		rest := k[i+1:]
+		return k[:i], rest[strings.IndexByte(rest, '.')+1:]
+	}
+	for _, k := range missing {
+		if _, done := out[k]; done {
+			continue
+		}
+		rel, name := nameOf(k)
+		var cands []string
+		for c := range cur {
+			if _, base := baselineFuncs[c]; base || taken[c] {
+				continue
+			}
+			crel, cname := nameOf(c)
+			if crel == rel && cname == name && (recvOf(c) == "") != (recvOf(k) == "") {
+				cands = append(cands, c)
+			}
+		}
+		if len(cands) == 1 {
+			out[k] = cands[0]
+			taken[cands[0]] = true
+		}
+	}
 	return out
 }
 
